@@ -255,7 +255,9 @@ def analyse_indirection(repo: Repo, run: Run, interp) -> None:
     rec = interp.run(tp.module, init, self_cls=tp)
     first = init.args.args[1].arg
     st = [e for e in rec.effects if e.kind == "attr-store" and e.key == "trace_codes"]
-    ok = len(st) == 1 and st[0].value == param(first) and not st[0].pc
+    # (types.MappingProxyType(table) is a read-only live view of the same table: every lookup answers as the table does)
+    view = T("call", (T("global", ("types.MappingProxyType",)), (param(first),), ()))
+    ok = len(st) == 1 and st[0].value in (param(first), view) and not st[0].pc
     run.ob("R2", tp.module.name, "TracesParser.__init__", "stores the table it is given", ok,
            "" if ok else "TracesParser.__init__ does not store its first argument as self.trace_codes", line=init.lineno)
     from .. import decoders
@@ -413,8 +415,11 @@ def lookups_by_name(repo: Repo, run: Run) -> None:
     """Nested lookup records are recognised by the NAME the supplied table gives their id (C08/R1) - not by an id fixed in
     the code or computed once from the table: with a table that lists a name under several ids (or under another id than
     the bundled one) every such record must still be decoded."""
+    if getattr(run, "is_probe", False):
+        return          # (a check run for its own obligations does not take over in turn)
     from . import c08
     probe = Run("C08", run.tier, run.repo_root)
+    probe.is_probe = True
     try:
         c08.check(repo, probe)
     except AnalysisError:
@@ -432,6 +437,7 @@ def lookups_by_name(repo: Repo, run: Run) -> None:
     # must not be decoded as one of them
     from . import c20
     probe = Run("C20", run.tier, run.repo_root)
+    probe.is_probe = True
     try:
         c20.check(repo, probe)
     except AnalysisError:
@@ -450,8 +456,11 @@ def domain_by_name(repo: Repo, run: Run) -> None:
     """R0 (from C04/K6): which pairing domain a record goes to is decided by the NAME the supplied table gives its id (is it a
     trace-family name?), never by the id's class byte or another property of the number - under a table that lists a TRACE_*
     name at another id the record must still be paired apart from the ordinary calls."""
+    if getattr(run, "is_probe", False):
+        return          # (a check run for its own obligations does not take over in turn)
     from . import c04
     probe = Run("C04", run.tier, run.repo_root)
+    probe.is_probe = True
     try:
         c04.check(repo, probe)
     except AnalysisError as ex:
